@@ -225,6 +225,7 @@ func lifeDriver(a *Args) {
 			sigs = append(sigs, sigCase{place, sg, 2000, 600})
 		}
 	}
+	sigs = append(sigs, sigCase{"backend-list-returns", syscall.SIGINT, 2500, 700}, sigCase{"backend-list-returns", syscall.SIGTERM, 2500, 700})
 	sigs = append(sigs, sigCase{"idle", syscall.SIGTERM, 0, 0}, sigCase{"backend", syscall.SIGINT, 0, 600}, sigCase{"backend", syscall.SIGTERM, 1000, 3000})
 	if hx.Thorough() {
 		for _, place := range []string{"idle", "listed", "backend"} {
@@ -394,7 +395,7 @@ func signalScenario(res *hx.Result, place string, sig syscall.Signal, graceMs, l
 		case <-fetched:
 		case <-time.After(10 * time.Second):
 		}
-	case "backend":
+	case "backend", "backend-list-returns":
 		fp.Push([]string{"req1"})
 		select {
 		case <-atBackend:
@@ -414,6 +415,12 @@ func signalScenario(res *hx.Result, place string, sig syscall.Signal, graceMs, l
 	if place == "listed" {
 		time.Sleep(50 * time.Millisecond)
 		close(release)
+	}
+	if place == "backend-list-returns" {
+		// the pending-list call that was in flight at the signal returns (empty) while the request is
+		// still at the backend: polling stops now - the forwarded request must still be answered
+		time.Sleep(60 * time.Millisecond)
+		fp.Push([]string{})
 	}
 	select {
 	case <-agent.Done():
